@@ -296,6 +296,8 @@ func VerifC06FSM() {
 	vRaft = &vRaftStand{logs: map[uint64]*raft.Log{}, first: 0}
 	j := vChoose(k + 1) // snapshot after j operations (0 = no snapshot)
 	var snap []byte
+	var pendingSnap raft.FSMSnapshot
+	persistAt := 0
 	var datas [][]byte
 	for i := 1; i <= k; i++ {
 		op := vDrawOp(kinds)
@@ -324,11 +326,25 @@ func VerifC06FSM() {
 			vCover("notification-delayed")
 		}
 		if i == j {
-			fs, err := a.Snapshot()
+			// Raft calls Snapshot between two applies and Persist from another
+			// goroutine while later entries are applied: the snapshot taken at
+			// j is written out after d more operations (latepersist=1)
+			var err error
+			pendingSnap, err = a.Snapshot()
 			vAssert(err == nil, "Snapshot succeeds")
+			persistAt = j
+			if vParam("latepersist", 1) == 1 && j < k {
+				persistAt = j + vChoose(k-j+1)
+				if persistAt > j {
+					vCover("persist-after-later-applies")
+				}
+			}
+		}
+		if pendingSnap != nil && i == persistAt {
 			sink := &vSink{}
-			vAssert(fs.Persist(sink) == nil, "snapshot persists")
+			vAssert(pendingSnap.Persist(sink) == nil, "snapshot persists")
 			snap = append([]byte{}, sink.Bytes()...)
+			pendingSnap = nil
 		}
 	}
 	vYield()
